@@ -1,25 +1,32 @@
 """C11 configuration, model search, shrinking (history -> one self-contained `hist` line)."""
 import os
 
+# The three witnesses of the two repaired defects (union_enum_atoms_defect, as_dataset_mut_remove_defect,
+# as_dataset_mut_remove_refuted) are hypotheses-false for the current source: they stay in Props/C11.lean and
+# Audit/C11.lean but are NOT counted as obligations.
 THEOREMS = ["store_types_lawful", "union_view", "partial_union_view", "dataset_graph_view", "dataset_graph_absent",
             "view_query", "view_contains", "graph_as_dataset_view", "union_enum_spo", "union_enum_atoms",
-            "union_enum_atoms_defect", "union_enum_verdict", "view_insert", "view_insert_flag", "view_remove",
-            "view_remove_flag", "as_dataset_mut_insert", "as_dataset_mut_insert_flag", "as_dataset_mut_remove",
-            "as_dataset_mut_remove_defect", "as_dataset_mut_remove_refuted", "as_dataset_mut_remove_verdict",
-            "run_coherent", "forwarding_flags_now", "as_dataset_mut_remove_now", "union_enum_now",
-            "union_enum_coherent_now", "run_coherent_now"]
+            "union_enum_verdict", "view_insert", "view_insert_flag", "view_remove", "view_remove_flag",
+            "as_dataset_mut_insert", "as_dataset_mut_insert_flag", "as_dataset_mut_remove",
+            "as_dataset_mut_remove_verdict", "run_coherent", "forwarding_flags_now", "as_dataset_mut_remove_now",
+            "union_enum_now", "union_enum_coherent_now", "run_coherent_now", "view_insert_now", "view_insert_flag_now",
+            "view_remove_now", "view_remove_flag_now", "as_dataset_mut_insert_now", "as_dataset_mut_insert_flag_now",
+            "view_remove_all", "view_remove_all_count", "view_remove_matching", "view_remove_matching_count",
+            "view_retain_matching", "view_insert_all", "view_insert_all_count", "as_dataset_mut_remove_all",
+            "as_dataset_mut_remove_all_count", "as_dataset_mut_insert_all", "as_dataset_mut_insert_all_named",
+            "step_views", "run_views_coherent", "run_views_coherent_store_types", "vec_gspo_lawful_read"]
 
 CONFIG = {
     "design_ref": "4.11",
-    "technique": "Lean 4 proof: the adapters of api/src/{graph,dataset}/adapter.rs transcribed as forwarding to the methods of ANY wrapped dataset/graph implementation, theorems for every lawful implementation, instantiated by C01's refinement for the indexed stores (every Good = reachable state) and directly for std sets/vectors; which underlying method each mutating adapter method calls is regenerated from the source (fail-closed shape check of every adapter body); differential over interleaved direct/view histories on all 14 shipped store types",
-    "level_text": "Proof (all states of every lawful store implementation, all graph names and matchers, unbounded histories): union_graph() shows exactly the image of the quads as a MULTISET (a triple in two graphs shows twice); partial_union_graph(m) and graph(g)/graph_mut(g) show exactly the triples of the quads whose graph name m matches / equals g (nothing for an absent name), also in triples(); pattern queries and contains through each view equal filtering / membership of the view; as_dataset() shows exactly the graph's triples in the default graph, answers pattern queries as filters, contains as membership (never for a named graph), has no graph names; insert/remove through graph_mut(g) have the state, result and flag of the dataset's insert/remove(s,p,o,g), leave every quad with another graph name and every other graph view untouched; insert through as_dataset_mut() refuses named graphs without change and is the graph's insert otherwise; histories mixing direct and view mutations refine C01's plain-set specification (run_coherent). removal through as_dataset_mut() removes exactly the triple with the right flag (as_dataset_mut_remove_now) and every enumeration of union_graph() is that of its own triples (union_enum_now). The theorems are stated over flags REGENERATED from adapter.rs on every run (which underlying method DatasetGraph::insert/remove and GraphAsDataset::insert/remove call; whether UnionGraph forwards the atom enumerations); forwarding_flags_now decides that the current source has the good values and the *_now theorems are unconditional for it; the conditional forms, kernel-checked witnesses of the two repaired defects (under the old flag values) and verdict theorems are kept, so a regression breaks a proof and is located by the differential. The tie of the model to the Rust code is differential (interleaved histories on every store type, 3-way: implementation / adapter model / plain-list specification, plus a Rust-side oracle recomputed from the underlying store's quads() before each operation) and the extractor's fail-closed check that every adapter body has the transcribed shape.",
-    "level_note": "Trusted: tools/extractors/c11.py (text-shape check of each adapter body); `&T`/`&mut T` forwarding impls (shape-checked for insert/remove, otherwise observed by the differential); std collections modelled as lists (C02 laws); C01's model of the indexed stores (tied by C01's own differential). Enumerations through PartialUnionGraph/DatasetGraph/GraphAsDataset other than graph_names are images of the view by definition and only compared by the differential; quoted_triples through borrowed views is not exercised on the Rust side (HRTB limitation) except for UnionGraph. No native_decide. Two defects found by this check are fixed in /repo (12da6cd, f7b1ae1); their minimal histories stay in corpus/C11/known.req and no known-finding predicate remains.",
+    "technique": "Lean 4 proof: the adapters of api/src/{graph,dataset}/adapter.rs transcribed as forwarding to the methods of ANY wrapped dataset/graph implementation, and the default bulk methods of MutableGraph/MutableDataset (insert_all, remove_all, remove_matching, retain_matching) as loops over the VIEW's own methods; theorems for every lawful implementation, instantiated by C01's refinement for the indexed stores (every Good = reachable state) and directly for std sets/vectors; which underlying method each mutating adapter method calls is regenerated from the source (fail-closed shape check of every adapter body, incl. that no adapter overrides a bulk method); differential over interleaved direct/view histories on all 17 shipped mutable store types, through borrowed, mutably borrowed and owning views",
+    "level_text": "Proof (all states of every lawful store implementation, all graph names and matchers, unbounded histories): union_graph() shows exactly the image of the quads as a MULTISET (a triple in two graphs shows twice); partial_union_graph(m) and graph(g)/graph_mut(g) show exactly the triples of the quads whose graph name m matches / equals g (nothing for an absent name), also in triples(); pattern queries and contains through each view equal filtering / membership of the view; as_dataset() shows exactly the graph's triples in the default graph, answers pattern queries as filters, contains as membership (never for a named graph), has no graph names; insert/remove through graph_mut(g) have the state, result and flag of the dataset's insert/remove(s,p,o,g), leave every quad with another graph name and every other graph view untouched; the DEFAULT bulk methods called on graph_mut(g) (view_remove_all, view_remove_matching, view_retain_matching, view_insert_all, with counts for set stores) remove / keep / add exactly the quads of graph g they select and leave every other graph untouched (retain_matching through a view does NOT filter the whole store), on as_dataset_mut() (as_dataset_mut_remove_all, _insert_all, _insert_all_named) likewise with quads of named graphs ignored resp. refused; insert through as_dataset_mut() refuses named graphs without change and is the graph's insert otherwise; histories mixing direct and view mutations refine C01's plain-set specification: run_coherent (indexed stores, single view mutations, index-full errors included) and run_views_coherent (EVERY lawful set implementation - indexed stores and std sets -, single and bulk mutations through graph_mut(g)). removal through as_dataset_mut() removes exactly the triple with the right flag (as_dataset_mut_remove_now) and every enumeration of union_graph() is that of its own triples (union_enum_now). The theorems are stated over flags REGENERATED from adapter.rs on every run (which underlying method DatasetGraph::insert/remove and GraphAsDataset::insert/remove call; whether UnionGraph forwards the atom enumerations); forwarding_flags_now decides that the current source has the good values and the *_now / bulk / run_views theorems are unconditional for it, so a regression of a flag breaks forwarding_flags_now and with it every obligation built on it, and is located by the differential. The tie of the model to the Rust code is differential (interleaved histories on every store type, 3-way: implementation / adapter model / plain-list specification, plus Rust-side oracles recomputed from the underlying store's quads() before each operation and from the SAME operation applied directly to a second store of the same type rebuilt from the same quads) and the extractor's fail-closed check that every adapter body has the transcribed shape.",
+    "level_note": "Trusted: tools/extractors/c11.py (text-shape check of each adapter body; comments, whitespace and trailing commas are normalised); `&T`/`&mut T` forwarding impls are the identity in the model (shape-checked for insert/remove, otherwise observed by the differential: every read is also made through graph_mut(g) / as_dataset_mut()); std collections modelled as lists (C02 laws) - for them the Lawful laws are near-definitional, the content is in the indexed stores (C01) and in the composition through the views; Vec<Gspo<T>> (remove drops only the first match) is modelled and compared but is not a Lawful implementation (no theorem applies beyond the one-step definitions); C01's model of the indexed stores (tied by C01's own differential). For vectors the oracle demands only what the property states (other quads keep their copies, same result as the direct operation on a twin store); for views a triple may show fewer times than there are quads behind it without being reported as a violation (model/implementation disagreement only). Enumerations through PartialUnionGraph/DatasetGraph/GraphAsDataset other than graph_names are images of the view by definition and only compared by the differential; quoted_triples through borrowed graph views is not exercised on the Rust side (HRTB limitation) except for UnionGraph and GraphAsDataset. remove_matching/retain_matching can not be called on a GraphAsDataset (its MutationError is not From<Error>): not covered. Nested views (a view of a view) and read errors of the wrapped store are not modelled. The three kernel-checked witnesses of the two repaired defects (12da6cd, f7b1ae1) are hypotheses-false for the current source and not counted as obligations; their minimal histories stay in corpus/C11/known.req and no known-finding predicate remains. No native_decide.",
     "tables": ["index_tables", "adapter_flags"],
     "lean_targets": ["SophiaProofs.Props.C11", "SophiaProofs.Audit.C11"],
     "theorems": THEOREMS,
     "native_ok": [],
     "trivial_re": r"^(ok=1|n=0 quads=_( |$)|r=0$|terms=_$|bad-op)",
-    "rule": "interleaved histories (10..40 operations quick, ..90 thorough; 8 per store type quick, 50 thorough) on each of LightDataset, FastDataset, small::{Light,Fast}Dataset, HashSet/BTreeSet/Vec of quads and LightGraph, FastGraph, small::{Light,Fast}Graph, HashSet/BTreeSet/Vec of triples: direct insert/remove/remove_matching/queries, mutations through graph_mut(g) resp. as_dataset_mut(), and all/pattern query/contains/enumerations through union_graph(), partial_union_graph(m), graph(g), as_dataset(); graph names: default, two IRIs, a blank node, a literal (generalized histories), and one never inserted directly; triples re-used across graphs on purpose (3 in 5), case-variant language tags; selectors from the whole GraphNameMatcher algebra over the names in use (matching 0 / 1 / several graphs); each history ends by observing the store and every view of it; a case is trivial when its reply is an empty result / false flag",
+    "rule": "interleaved histories (10..40 operations quick, ..90 thorough; 24 per store type quick, 150 thorough) on each of LightDataset, FastDataset, small::{Light,Fast}Dataset, HashSet/BTreeSet/Vec of Spog quads, HashSet/BTreeSet/Vec of Gspo quads and LightGraph, FastGraph, small::{Light,Fast}Graph, HashSet/BTreeSet/Vec of triples: direct insert/remove/insert_all/remove_matching/queries; single mutations AND the default bulk methods (insert_all, remove_all, remove_matching, retain_matching) through graph_mut(g) resp. (insert_all, remove_all) as_dataset_mut(), 2 in 3 aimed at a graph / triple inserted earlier; all/pattern query/contains/enumerations through union_graph(), into_union_graph(), partial_union_graph(m), graph(g), graph_mut(g), as_dataset(), as_dataset_mut(), into_dataset(); graph names: default, two IRIs, a blank node, in generalized histories also a literal, a quoted triple and a variable, and three never inserted directly (an IRI, a blank node, a literal); triples re-used across graphs on purpose (3 in 5), repeated elements in bulk arguments, case-variant language tags; selectors from the whole GraphNameMatcher algebra over the names in use (matching 0 / 1 / several graphs); each history ends by observing the store and every view of it (also through the mutable and owning adapters); a case is trivial when its reply is an empty result / false flag",
     "trusted_base": ["tools/extractors/c11.py: fail-closed text-shape check of every adapter method body (cross-checked by the differential)",
                      "C01's store model and its tie to sophia_inmem; std HashSet/BTreeSet/Vec modelled as lists"],
     "assumptions": ["SimpleTerm's Eq/Hash/Ord (CmpTerm) agree with Term::eq (C02)"],
@@ -37,33 +44,39 @@ CONFIG["model_search"] = {"ask": ["search"], "to_requests": lambda lines: [l for
 
 # ------------------------------------------------------------------ shrinking: make the failing case self-contained
 
-def _history_of(request, impl_line):
-    """the request lines from the preceding `new` up to the failing line, from the last run's files"""
+def _histories_of(request, impl_line, model_line=None):
+    """candidate histories: for every line of the last run with this request and these replies, the request
+    lines from the preceding `new` up to it (a frequent request such as `v union all` occurs in many
+    histories: the caller keeps the first candidate that reproduces the failure)"""
     here = os.path.dirname(os.path.dirname(os.path.abspath(__file__)))
     rundir = os.path.join(os.path.dirname(here), ".cache", "run", "C11")
+    out = []
     for tag in ("main", "search", "witness"):
         try:
             reqs = [l.rstrip("\n") for l in open(os.path.join(rundir, tag + ".req"))]
             impl = [l.rstrip("\n") for l in open(os.path.join(rundir, tag + ".impl"))]
+            model = [l.rstrip("\n") for l in open(os.path.join(rundir, tag + ".model"))]
         except OSError:
             continue
         for i, r in enumerate(reqs):
-            if r == request and i < len(impl) and impl[i] == impl_line:
-                j = i
-                while j >= 0 and not reqs[j].startswith("new "):
-                    j -= 1
-                if j >= 0:
-                    return reqs[j:i + 1]
-    return None
+            if r != request or i >= len(impl) or impl[i] != impl_line:
+                continue
+            if model_line is not None and i < len(model) and model[i] != model_line:
+                continue
+            j = i
+            while j >= 0 and not reqs[j].startswith("new "):
+                j -= 1
+            if j >= 0:
+                out.append(reqs[j:i + 1])
+            if len(out) >= 40:
+                return out
+    return out
 
 
 def _shrink(failure, run):
     """turn a failing line of a stateful history into ONE self-contained `hist` request and drop the
     operations that are not needed for the same field to fail"""
     if failure["request"].startswith("hist "):
-        return failure
-    hist = _history_of(failure["request"], failure["impl"])
-    if not hist:
         return failure
 
     def attempt(lines):
@@ -74,12 +87,17 @@ def _shrink(failure, run):
                 return f
         return None
 
-    best = attempt(hist)
+    hist, best = None, None
+    for cand in _histories_of(failure["request"], failure["impl"], failure.get("model")):
+        best = attempt(cand)
+        if best is not None:
+            hist = cand
+            break
     if best is None:
         return failure
     body = hist[1:-1]
     k = 0
-    while k < len(body) and len(body) <= 60:
+    while k < len(body) and len(body) <= 100:
         trial = body[:k] + body[k + 1:]
         f = attempt([hist[0]] + trial + [hist[-1]])
         if f is not None:
